@@ -596,6 +596,7 @@ func scenario(x *explore.X, product bool, ncfg int) {
 				if slowUpload && k == len(segs)-1 && k > 0 && sent >= len(rq.msg().Head()) {
 					// the head is complete, the rest of the body arrives two (virtual) minutes later - longer than
 					// read-header-timeout, which no longer applies: a body may take as long as it takes
+					nh.Poll() // (the next hop accepts - and, inside an intercepted tunnel, completes its TLS handshake - now, not after the pause)
 					world.Settle(2 * time.Minute)
 				}
 				cl.Send(sg)
